@@ -1,0 +1,31 @@
+//go:build verif
+
+// Verification hooks (build tag "verif"). Add-only: read-only views of a session used by the
+// external verification harness (C10) to tell which accepted / dialed net.Conn is which session.
+
+package protocol
+
+import "net"
+
+// VerifSessionID returns the session ID of a net.Conn produced by Mux.Accept / Mux.DialContext.
+func VerifSessionID(conn net.Conn) (uint32, bool) {
+	s, ok := conn.(*Session)
+	if !ok || s == nil {
+		return 0, false
+	}
+	return s.id, true
+}
+
+// VerifSessionClosed reports whether the session's closedChan has been closed.
+func VerifSessionClosed(conn net.Conn) bool {
+	s, ok := conn.(*Session)
+	if !ok || s == nil {
+		return false
+	}
+	select {
+	case <-s.closedChan:
+		return true
+	default:
+		return false
+	}
+}
